@@ -1,1 +1,1 @@
-"""A-MPL model (filled in for C18)"""
+from matplotlib.patches import Path
